@@ -87,7 +87,9 @@ def readcoder(dra, indicespath, valuespath):
                f'}}\n'
     else:
         commas = len(dra._arrayinfo['atom'])*','
-        emptydim = ",".join([str(d) for d in dra.atom] + ['0'])
+        # R is column-major: the values array is read with reversed
+        # dimensions, so an empty subarray should have them reversed as well
+        emptydim = ",".join([str(d) for d in dra.atom[::-1]] + ['0'])
         rff += f'    if (starti > endi) {{\n' \
                f'        return (array(numeric(),c({emptydim}))) # empty array\n' \
                f'    }} else {{\n' \
